@@ -320,3 +320,37 @@ func vhSeedRand(offset uint32) {
 	}
 	panic("VREPLAY-ASSUME-FAILED: no seed found")
 }
+
+// (e) the ephemeral path of ReservePort itself (port 0): from an arbitrary state the port it
+// returns is in range, was free for the request, is recorded for every requested network under
+// the requested address, and nothing else changes. The pre-state holds at most two
+// descriptors, so at most two candidates can be refused and the real search loop is unrolled.
+func vh_reserve_ephemeral() {
+	pm, ghost := vhPM(vparam("desc", 2))
+	nets := vhNets()
+	tr := tcpip.TransportProtocolNumber(vnU32("reqtr"))
+	addr := vhAddr("reqaddr")
+	probe := vhProbe()
+	before := vhInGhost(ghost, probe)
+	offset := vnU32("offset")
+	vassume(offset < vhCount)
+	if vsymbolic() {
+		vrandPush(offset)
+	} else {
+		vhSeedRand(offset)
+	}
+	got, err := pm.ReservePort(nets, tr, addr, 0)
+	vassert(err == nil, "an ephemeral request succeeds while free ports exist")
+	vassert(got >= FirstEphemeral, "the ephemeral port is in [16000,65535]")
+	vassert(!vhAnyConflict(ghost, nets, tr, got, addr), "the ephemeral port returned was free for this request")
+	for _, n := range nets {
+		vassert(vhHas(pm, vhRes{n, tr, got, addr}), "the returned ephemeral port is recorded as reserved for every requested network")
+	}
+	vassert(vhHas(pm, probe) == vor(before, vhRequested(nets, tr, got, addr, probe)), "an ephemeral reservation adds exactly the returned port's entries")
+	vassert(!pm.IsPortAvailable(nets, tr, addr, got), "the returned port is no longer available to an identical request")
+	_, err2 := pm.ReservePort(nets, tr, addr, got)
+	vassert(err2 == tcpip.ErrPortInUse, "an explicit reservation of the port just handed out is refused")
+	vassert(vhInvP(pm), "ReservePort keeps InvP")
+	vassert(pm.mu.TryLock(), "ReservePort releases its lock")
+	vreach("ephemeral")
+}
